@@ -389,10 +389,17 @@ package sbom
 //@ pred validNL(nl *NodeList) = nl != nil && !(nil in elems(nl.Nodes)) && !(nil in elems(nl.Edges))
 
 //@ func NodeList.cleanEdges
-//@   props C04, C08
+//@   props C04, C08, C12
 //@   requires validNL(nl)
 //@   assigns nl.Edges
+//@   owns
 //@   ensures [validNL] validNL(nl)
+//@   ensures [C08:cleanEdges:freshEdges] fresh(arr(nl.Edges)) && (forall e *Edge :: (e in elems(nl.Edges)) ==> fresh(e) && (arr(e.To) == nil || fresh(arr(e.To))))
+//@   ensures [C08:cleanEdges:others] nl.Nodes == old(nl.Nodes) && nl.RootElements == old(nl.RootElements)
+//@   invariant L2: fresh(arr(newEdges)) && (forall e *Edge :: (e in elems(newEdges)) ==> fresh(e) && (arr(e.To) == nil || fresh(arr(e.To)))) && (forall k string :: (k in seenCache) ==> seenCache[k] != nil && fresh(seenCache[k]) && (arr(seenCache[k].To) == nil || fresh(arr(seenCache[k].To))))
+//@   invariant L3: fresh(arr(newEdges)) && (forall e *Edge :: (e in elems(newEdges)) ==> fresh(e) && (arr(e.To) == nil || fresh(arr(e.To)))) && (forall k string :: (k in seenCache) ==> seenCache[k] != nil && fresh(seenCache[k]) && (arr(seenCache[k].To) == nil || fresh(arr(seenCache[k].To))))
+//@   invariant L0: forall k string :: (k in seenCache) ==> seenCache[k] != nil && fresh(seenCache[k]) && (arr(seenCache[k].To) == nil || fresh(arr(seenCache[k].To)))
+//@   invariant L1: forall k string :: (k in seenCache) ==> seenCache[k] != nil && fresh(seenCache[k]) && (arr(seenCache[k].To) == nil || fresh(arr(seenCache[k].To)))
 
 //@ func NodeList.Add
 //@   props C04, C08
